@@ -230,11 +230,15 @@ def main() -> int:
     ap.add_argument("--runs", type=int, default=None)
     ap.add_argument("--limit", type=int, default=None)
     ap.add_argument("--out", default=None)
+    ap.add_argument("--only", default=None, help="comma separated substrings of mutant names")
     a = ap.parse_args()
     t = TARGETS[a.target]
     rel = t["file"]
     orig = open(os.path.join(REPO, rel)).read()
     muts = gen_mutants(os.path.join(REPO, rel), t["funcs"])
+    if a.only:
+        subs = a.only.split(",")
+        muts = [m for m in muts if any(x in m[0] for x in subs)]
     if a.limit:
         muts = muts[: a.limit]
     print(f"[mutate] {a.target}: {len(muts)} mutants of {rel}", flush=True)
